@@ -140,7 +140,18 @@ struct MeshBox {
         if (level <= 0) return;
         add_id_prop<Entity::Vertex>(idV); add_id_prop<Entity::Edge>(idE); add_id_prop<Entity::HalfEdge>(idHE);
         add_id_prop<Entity::Face>(idF); add_id_prop<Entity::HalfFace>(idHF); add_id_prop<Entity::Cell>(idC);
-        if (level >= 2) add_more_props("a");
+        if (level >= 2) { add_more_props("a"); add_position_prop(); }
+    }
+    // vertex positions are a property as well (C03: "vertex positions follow the same rule")
+    void add_position_prop() {
+        PropertyPtr<Vec3d, Entity::Vertex> *pp = nullptr;
+        if (auto *g = dynamic_cast<GeometricPolyhedralMeshV3d *>(m)) pp = &g->vertex_positions();
+        else if (auto *g2 = dynamic_cast<GeometricTetrahedralMeshV3d *>(m)) pp = &g2->vertex_positions();
+        else if (auto *g3 = dynamic_cast<GeometricHexahedralMeshV3d *>(m)) pp = &g3->vertex_positions();
+        if (!pp) return;
+        std::unique_ptr<PropT<Vec3d, Entity::Vertex>> pb(new PropT<Vec3d, Entity::Vertex>(*pp));
+        pb->kind = "V"; pb->name = "ovm:position"; pb->type = "vec3d"; pb->flavour = "position";
+        props.emplace_back(std::move(pb));
     }
     // a mixed family of value types / flavours on all seven kinds
     void add_more_props(const std::string &sfx) {
@@ -175,6 +186,23 @@ struct MeshBox {
             ++n;
         }
         return n;
+    }
+    // give the values of properties created in the middle of a history the value that
+    // belongs to each already stamped slot (ids are read from the id properties)
+    template <class Tag> void refill_kind(PropertyPtr<int, Tag> *idp, size_t first_new) {
+        if (!idp) return;
+        const char *kn = kind_name<Tag>();
+        for (size_t i = 0; i < idp->size(); ++i) {
+            long long id = idp->data_vector()[i];
+            if (id == -1) continue;
+            for (size_t k = first_new; k < props.size(); ++k)
+                if (props[k]->kind == kn && props[k]->size() > i) props[k]->set_from_id(i, id);
+        }
+    }
+    void refill(size_t first_new) {
+        refill_kind<Entity::Vertex>(idV, first_new); refill_kind<Entity::Edge>(idE, first_new);
+        refill_kind<Entity::HalfEdge>(idHE, first_new); refill_kind<Entity::Face>(idF, first_new);
+        refill_kind<Entity::HalfFace>(idHF, first_new); refill_kind<Entity::Cell>(idC, first_new);
     }
     size_t stamp() {
         size_t n = 0;
